@@ -41,6 +41,10 @@ func (SubsScenario) GenCase(r *rand.Rand, prop string) interface{} {
 	c.SvcName = pick(r, "test", "test", "test", "a.b", "")
 	c.Workers = pick(r, 1, 2, 4)
 	c.InCh = 1024
+	if chance(r, 12) {
+		// one of the service's own subscriptions fails
+		c.SubFailAt = 1 + r.IntN(6)
+	}
 	if chance(r, 30) {
 		// the same Service served twice; the second time possibly while the
 		// first Serve call is still on its way out
@@ -318,6 +322,15 @@ func (e *Engine) checkSubs(ep int) {
 		if fmt.Sprint(setOf(ev.Resources)) != fmt.Sprint(resSet) || fmt.Sprint(setOf(ev.Access)) != fmt.Sprint(accSet) {
 			e.H.Violate("C09", "reset-content", "", fmt.Sprintf("service %q owned=%v: system.reset announced resources=%v access=%v, expected resources=%v access=%v", c.SvcName, c.Owned, ev.Resources, ev.Access, resSet, accSet))
 		}
+	}
+	if conn.Stats.SubErrors > 0 {
+		// one of the service's subscriptions failed: it must stop instead of
+		// announcing an ownership it cannot serve
+		e.H.Evals++
+		if nreset > 0 {
+			e.H.Violate("C09", "announced-despite-failed-subscription", "", fmt.Sprintf("service %q owned=%v: a subscription failed while starting, yet system.reset was published %d times; subscriptions: %v", c.SvcName, c.Owned, nreset, subjectsOf(conn)))
+		}
+		return
 	}
 	for id, n := range customSeen {
 		if n > 1 {
